@@ -135,7 +135,7 @@ def defOfTarget (r : Route) (t : Target) : RouteDef :=
 /-- the definitions `Table.String()` writes, in its order -/
 def defsOfTable (t : Table) : List RouteDef :=
   (hostOrder t).flatMap (fun h => (t.get h).flatMap (fun r =>
-    (r.targets.filter (fun t => decide (0 < t.weight))).map (defOfTarget r)))
+    r.targets.map (defOfTarget r)))
 
 /-- a target as the text carries it: weight to four decimals (≤ 0 = none), options sorted by key -/
 def norm4 (t : Target) : Target :=
